@@ -5,10 +5,13 @@
 (* is lost".                                                               *)
 (*                                                                         *)
 (* One ndjson line per real execution:                                     *)
-(*   [tid, init: <<v per name>>, final: <<v per name>>, ops: <<op>>,       *)
-(*    commits: <<[id, parent]>>, tip]                                      *)
-(* op = [k: kind, n: name index, old, new, res, exc: BOOLEAN, c, r]        *)
+(*   [tid, init: <<v per name>>, final: <<v per name>>, hinit, hfinal,     *)
+(*    ops: <<op>>, commits: <<[id, parent]>>, tip]                         *)
+(* op = [k: kind, n: name index, via, old, new, res, exc: BOOLEAN, c, r]   *)
 (*   c / r = global sequence numbers of the call and of the return.        *)
+(*   via = 1: the operation was issued on the symbolic ref HEAD; the name  *)
+(*   it acts on is HEAD's target AT ITS LINEARIZATION POINT (ht below).    *)
+(*   hinit / hfinal = index of the name HEAD points at before / after.     *)
 (* Values are small integers: 0 = absent (ZERO_SHA), -1 = None             *)
 (* (unconditional), >0 = an object id.  Names are indices; symbolic refs   *)
 (* are resolved by the harness before logging (HEAD -> its target), which  *)
@@ -26,47 +29,57 @@ EXTENDS Integers, Sequences, FiniteSets, TLC, Json, IOUtils
 Traces == ndJsonDeserialize(IOEnv.TRACE_FILE)
 
 VARIABLES tid, done, cur, ok,
-          mode,    \* "strict": the contract; "dev": the contract plus the named deviation below
-          pread    \* dev mode: value pack_refs read for the ref before it took packed-refs.lock
-vars == <<tid, done, cur, ok, mode, pread>>
+          ht,      \* the name (index) the symbolic ref HEAD points at
+          mode,    \* "strict": the contract; "dev" / "devsym": the contract plus ONE named deviation below
+          pread,   \* dev mode: value pack_refs read for the ref before it took packed-refs.lock
+          rname    \* devsym mode: the name an operation issued on HEAD resolved HEAD to, before it took any lock
+vars == <<tid, done, cur, ok, ht, mode, pread, rname>>
 
 T == Traces[tid]
 Ops == T.ops
 OpIds == 1..Len(Ops)
 
-\* the sequential contract: [post-state, result] of op o in state m
-Apply(o, m) ==
-    LET v == m[o.n] IN
-    CASE o.exc -> [m |-> m, res |-> o.res]
+\* the sequential contract: [post-state, post-HEAD-target, result] of op o in state (m, h)
+Apply(o, m, h, hn) ==
+    LET nm == IF o.via = 1 THEN hn ELSE o.n
+        v == m[nm] IN
+    CASE o.exc -> [m |-> m, h |-> h, res |-> o.res]
       [] o.k = "set_if_equals" ->
-            IF o.old = -1 \/ o.old = v THEN [m |-> [m EXCEPT ![o.n] = o.new], res |-> 1]
-            ELSE [m |-> m, res |-> 0]
+            IF o.old = -1 \/ o.old = v THEN [m |-> [m EXCEPT ![nm] = o.new], h |-> h, res |-> 1]
+            ELSE [m |-> m, h |-> h, res |-> 0]
       [] o.k = "add_if_new" ->
-            IF v = 0 THEN [m |-> [m EXCEPT ![o.n] = o.new], res |-> 1] ELSE [m |-> m, res |-> 0]
+            IF v = 0 THEN [m |-> [m EXCEPT ![nm] = o.new], h |-> h, res |-> 1] ELSE [m |-> m, h |-> h, res |-> 0]
       [] o.k = "remove_if_equals" ->
-            IF o.old = -1 \/ o.old = v THEN [m |-> [m EXCEPT ![o.n] = 0], res |-> 1]
-            ELSE [m |-> m, res |-> 0]
-      [] o.k = "read" -> [m |-> m, res |-> v]
-      [] o.k = "pack_refs" -> [m |-> m, res |-> o.res]
-      [] OTHER -> [m |-> m, res |-> o.res]
+            IF o.old = -1 \/ o.old = v THEN [m |-> [m EXCEPT ![nm] = 0], h |-> h, res |-> 1]
+            ELSE [m |-> m, h |-> h, res |-> 0]
+      [] o.k = "read" -> [m |-> m, h |-> h, res |-> v]
+      [] o.k = "set_symref" -> [m |-> m, h |-> o.new, res |-> 1]      \* HEAD re-pointed at name o.new
+      [] o.k = "read_link" -> [m |-> m, h |-> h, res |-> h]           \* which name does HEAD point at
+      [] o.k = "pack_refs" -> [m |-> m, h |-> h, res |-> o.res]
+      [] OTHER -> [m |-> m, h |-> h, res |-> o.res]
 
 Init ==
     /\ tid \in 1..Len(Traces)
     /\ done = {}
     /\ cur = T.init
+    /\ ht = T.hinit
     /\ ok = FALSE
-    /\ mode \in {"strict", "dev"}
+    /\ mode \in {"strict", "dev", "devsym"}
     /\ pread = [i \in OpIds |-> -9]
+    /\ rname = [i \in OpIds |-> 0]
 
 Linearize(i) ==
     /\ i \notin done
     /\ ~(mode = "dev" /\ Ops[i].k = "pack_refs" /\ ~Ops[i].exc)
     /\ \A j \in OpIds : Ops[j].r < Ops[i].c => j \in done
-    /\ LET a == Apply(Ops[i], cur) IN
+    /\ (mode = "devsym" /\ Ops[i].via = 1 /\ ~Ops[i].exc) => rname[i] # 0
+    /\ LET hn == IF mode = "devsym" /\ Ops[i].via = 1 /\ ~Ops[i].exc THEN rname[i] ELSE ht
+           a == Apply(Ops[i], cur, ht, hn) IN
          /\ a.res = Ops[i].res
          /\ cur' = a.m
+         /\ ht' = a.h
     /\ done' = done \cup {i}
-    /\ UNCHANGED <<tid, ok, mode, pread>>
+    /\ UNCHANGED <<tid, ok, mode, pread, rname>>
 
 (***************************************************************************)
 (* Named deviation (known finding, refs.py:pack_refs): pack_refs reads the *)
@@ -82,14 +95,29 @@ PackRead(i) ==
     /\ mode = "dev" /\ i \notin done /\ Ops[i].k = "pack_refs" /\ ~Ops[i].exc /\ pread[i] = -9
     /\ \A j \in OpIds : Ops[j].r < Ops[i].c => j \in done
     /\ pread' = [pread EXCEPT ![i] = cur[Ops[i].n]]
-    /\ UNCHANGED <<tid, done, cur, ok, mode>>
+    /\ UNCHANGED <<tid, done, cur, ok, ht, mode, rname>>
 
 PackWrite(i) ==
     /\ mode = "dev" /\ i \notin done /\ pread[i] # -9
     /\ \/ cur' = cur
        \/ pread[i] > 0 /\ cur' = [cur EXCEPT ![Ops[i].n] = pread[i]]    \* stale value written back
     /\ done' = done \cup {i}
-    /\ UNCHANGED <<tid, ok, mode, pread>>
+    /\ UNCHANGED <<tid, ok, ht, mode, pread, rname>>
+
+(***************************************************************************)
+(* Second named deviation (refs.py: follow() before the lock / before the  *)
+(* value is read): an operation issued on the symbolic ref HEAD resolves   *)
+(* HEAD to a name first (SymResolve) and acts on THAT name later, although *)
+(* HEAD may have been re-pointed in between.  C git's files backend reads  *)
+(* through symbolic refs in the same two steps, but holds HEAD.lock while  *)
+(* it updates through one.  A history accepted only in "devsym" mode is    *)
+(* reported under that name; one accepted in no mode is something else.    *)
+(***************************************************************************)
+SymResolve(i) ==
+    /\ mode = "devsym" /\ i \notin done /\ Ops[i].via = 1 /\ ~Ops[i].exc /\ rname[i] = 0
+    /\ \A j \in OpIds : Ops[j].r < Ops[i].c => j \in done
+    /\ rname' = [rname EXCEPT ![i] = ht]
+    /\ UNCHANGED <<tid, done, cur, ok, ht, mode, pread>>
 
 Range(s) == {s[i] : i \in 1..Len(s)}
 
@@ -103,11 +131,12 @@ Accept ==
     /\ ~ok
     /\ done = OpIds
     /\ cur = T.final
+    /\ ht = T.hfinal
     /\ NoLostCommit
     /\ PrintT(<<"LIN", T.tid, mode>>)
     /\ ok' = TRUE
-    /\ UNCHANGED <<tid, done, cur, mode, pread>>
+    /\ UNCHANGED <<tid, done, cur, ht, mode, pread, rname>>
 
-Next == (\E i \in OpIds : Linearize(i) \/ PackRead(i) \/ PackWrite(i)) \/ Accept
+Next == (\E i \in OpIds : Linearize(i) \/ PackRead(i) \/ PackWrite(i) \/ SymResolve(i)) \/ Accept
 Spec == Init /\ [][Next]_vars
 =============================================================================
